@@ -378,6 +378,25 @@ theorem run_sound (cfg : Cfg) (hcm : cfg.comments = false) (htc : cfg.trailingCo
   have hr := accept_sound cfg r s1 (Or.inl h1) hA1.err_none hA1
   exact ⟨v, parseText_of _ rfl bs r v (hp _ (by omega)) hr⟩
 
+/-- a text without any `\u` escape (no backslash followed by `u`) has no surrogate anomaly -/
+theorem sOK_of_noU : ∀ (n : Nat) (s : Bytes), s.length ≤ n → NoU s → surrogateOK s = true
+  | 0, [], _, _ => rfl
+  | 0, _ :: _, h, _ => by simp at h
+  | _ + 1, [], _, _ => rfl
+  | n + 1, c :: cs, hl, hnu => by
+    have hl' : cs.length ≤ n := by simpa using hl
+    unfold surrogateOK
+    by_cases h92 : c = 92
+    · subst h92
+      cases cs with
+      | nil => simp
+      | cons e r =>
+        have he : e ≠ 117 := by intro e'; subst e'; exact hnu [] r rfl
+        simp only [if_true, he, if_false]
+        exact sOK_of_noU n r (by simp at hl'; omega) hnu.tail.tail
+    · simp only [h92, if_false]
+      exact sOK_of_noU n cs hl' hnu.tail
+
 end JsonParser
 end Model
 end JV
